@@ -478,6 +478,42 @@ func parseFatal(stderr string) map[string]any {
 	return map[string]any{"kind": "fatal", "msg": msg, "fns": fns, "raw": rest[:min(len(rest), 3000)]}
 }
 
+var reGoHdr = regexp.MustCompile(`^goroutine \d+ \[([^\],]+)`)
+
+// parseDump reduces a full goroutine dump to the goroutines that run code of the repository under test:
+// wait state + function names, innermost first
+func parseDump(dump string) []map[string]any {
+	var out []map[string]any
+	for _, g := range strings.Split(dump, "\n\n") {
+		lines := strings.Split(strings.TrimSpace(g), "\n")
+		if len(lines) == 0 {
+			continue
+		}
+		m := reGoHdr.FindStringSubmatch(lines[0])
+		if m == nil {
+			continue
+		}
+		var fns []string
+		repo := false
+		for _, ln := range lines[1:] {
+			if strings.HasPrefix(ln, "\t") || strings.HasPrefix(ln, "created by") {
+				continue
+			}
+			if fm := reGoFn.FindStringSubmatch(ln); fm != nil {
+				f := shortFn(fm[1])
+				if strings.HasPrefix(f, "@") {
+					repo = true
+				}
+				fns = append(fns, f)
+			}
+		}
+		if repo && len(out) < 80 {
+			out = append(out, map[string]any{"state": m[1], "fns": fns})
+		}
+	}
+	return out
+}
+
 func runPlan(planFile, outFile string) error {
 	var plan []Mix
 	b, err := os.ReadFile(planFile)
@@ -569,7 +605,7 @@ func runPlan(planFile, outFile string) error {
 						sum["slow"] = true
 					}
 					if h, _ := cr["hang"].(string); h != "" {
-						emit(map[string]any{"kind": "hang", "mix": m.ID, "paths": m.Paths, "raw": h[:min(len(h), 6000)]})
+						emit(map[string]any{"kind": "hang", "mix": m.ID, "paths": m.Paths, "goroutines": parseDump(h), "raw": h[:min(len(h), 6000)]})
 						sum["hang"] = true
 					}
 					if gs, ok := cr["goroutines"].([]any); ok {
